@@ -130,6 +130,31 @@ def large_list_cases(ctx, rids, sizes=(17, 31, 34), medium=True):
     return cases
 
 
+def spike_ref_interior(a, b, ts, te, t, mrts, ri):
+    """SPIKE dissimilarity at a time t strictly inside an inter-spike interval of BOTH trains (t after both first
+    spikes and before both last ones), straight from the definition: per train the nearest-spike distances of the
+    previous and the following spike (nearest over the other train's spikes and its two auxiliary spikes, which lie
+    at the recording edges or one inter-spike interval beyond the outermost spike, whichever is further out),
+    interpolated linearly in t; combined weighted by the inter-spike intervals over mean * max(MRTS, mean), or the
+    plain mean over max(MRTS, mean) for the rate-independent variant.  Floats; used for LARGE inputs only, where the
+    extracted Coq model is too slow (it agrees with the implementation, and hence with the model, on small inputs)."""
+    import bisect
+
+    def side(s, o):
+        k = bisect.bisect_right(s, t)
+        tP, tF = s[k - 1], s[k]
+        cand = [min(ts, 2 * o[0] - o[1])] + o + [max(te, 2 * o[-1] - o[-2])]
+        dP = min(abs(tP - x) for x in cand)
+        dF = min(abs(tF - x) for x in cand)
+        isi = tF - tP
+        return (dP * (tF - t) + dF * (t - tP)) / isi, isi
+    s1, i1 = side(a, b)
+    s2, i2 = side(b, a)
+    mean = 0.5 * (i1 + i2)
+    lim = max(mrts, mean)
+    return 0.5 * (s1 + s2) / lim if ri else 0.5 * (s1 * i2 + s2 * i1) / (mean * lim)
+
+
 def large_spike_oracle(ctx, what):
     """SPIKE measures on long trains (large.py) WITHOUT the model (its extracted arithmetic is far too slow there):
     the compiled-source kernel against the Python-text kernel (equal texts by theorem, Props/C12.v), and at the API
@@ -172,6 +197,22 @@ def large_spike_oracle(ctx, what):
             ctx.violate("SPIKE profile / distance raises on long trains", "spike_profile", [T(a), T(b), m, ri], got=res, rid=51)
             continue
         pab, pba, dab, avab, daa = res
+        fa, fb = [float(x_) for x_ in a], [float(x_) for x_ in b]
+        if len(fa) >= 2 and len(fb) >= 2:
+            # the values against the definition, at the midpoint of every piece inside both trains' spike ranges
+            lo_, hi_ = max(fa[0], fb[0]), min(fa[-1], fb[-1])
+            xs_ = pab[0]
+            mids = [0.5 * (xs_[i_] + xs_[i_ + 1]) for i_ in range(len(xs_) - 1) if xs_[i_] >= lo_ and xs_[i_ + 1] <= hi_]
+            if mids:
+                got_v = core.call_impl(lambda: q(lambda: [float(v_) for v_ in ps.spike_profile(A, B, **kw)(mids)]))
+                want_v = [spike_ref_interior(fa, fb, 0.0, 1.0, t_, float(m), ri) for t_ in mids]
+                ctx.check()
+                if isinstance(got_v, core.Err) or len(got_v) != len(want_v) or \
+                        any(abs(g_ - w_) > 1e-9 for g_, w_ in zip(got_v, want_v)):
+                    wbad = None if isinstance(got_v, core.Err) else \
+                        [(t_, g_, w_) for t_, g_, w_ in zip(mids, got_v, want_v) if abs(g_ - w_) > 1e-9][:3]
+                    ctx.violate("SPIKE profile on long trains != the documented instantaneous dissimilarity at a piece midpoint",
+                                "spike_profile", [T(a), T(b), m, ri], expected=wbad, got=got_v if wbad is None else None, rid=51)
         want_x = sorted(set([0.0, 1.0] + [float(x_) for x_ in a] + [float(x_) for x_ in b]))
         bad = None
         if pab[0] != want_x:
@@ -3825,6 +3866,21 @@ def c20(ctx):
         if list(ys) != [float(w_) for w_ in want]:
             ctx.violate("psth: a spike exactly on a bin edge is counted in the wrong bin", "psth", repr((ts_, te_, bs, on)),
                         expected=want, got=ys)
+    # every bin count from 1 to 200 on three recordings, spikes exactly on both edges: the last bin edge IS t_end (an edge
+    # computed as t_start + n*width can come out one unit in the last place below it and lose the spike on t_end)
+    if ctx.shard == 0:
+        for ts_, te_ in ((0.0, 1.0), (0.0, 10.0), (-1.0, 2.0)):
+            stq = [ps.SpikeTrain(np.array([ts_, 0.5 * (ts_ + te_), te_]), (ts_, te_)), ps.SpikeTrain(np.array([te_]), (ts_, te_))]
+            for nbq in range(1, 201):
+                p = core.call_impl(lambda: ps.psth(stq, (te_ - ts_) / nbq))
+                ctx.check()
+                if isinstance(p, core.Err) or len(p[0]) < 2 or p[0][0] != ts_ or p[0][-1] != te_ or sum(p[1]) != 4 \
+                        or p[1][-1] < 2 or p[1][0] < 1:
+                    ctx.violate("psth with %d bins on [%r, %r]: the bins do not span the recording exactly / a spike on an edge "
+                                "is lost" % (nbq, ts_, te_), "psth", repr((ts_, te_, nbq)),
+                                got=p if isinstance(p, core.Err) else [p[0][0], p[0][-1], sum(p[1])], expected=[ts_, te_, 4])
+                    break
+        ctx.nontrivial(("c20bins",))
     ctx.corr(cases, lambda rid, a: True, functional=True)
     ctx.corr_values("psth", 92, psth_items, functional=True)
     # Poisson generator with recorded draws against the model (cumulative sums below T_end)
